@@ -351,9 +351,16 @@ class WriteFile:
 class Zone:
     """time-zone model: standard / daylight offset (seconds east of UTC), isdst(t) per instant"""
 
-    def __init__(self, std=0, dst=0, isdst=None):
+    def __init__(self, std=0, dst=0, isdst=None, second=None):
         self.std, self.dst = std, dst
         self._isdst = isdst  # None: never DST; else callable t -> SymBool|bool
+        self._second = second  # None: no instant lies in a repeated hour; else callable t -> SymBool|bool
+
+    def second_occurrence(self, t):
+        """is t in the second occurrence of the wall-clock hour that is repeated when daylight saving ends?"""
+        if self._second is None:
+            return False
+        return self._second(t)
 
     def isdst(self, t):
         if self._isdst is None:
@@ -533,7 +540,8 @@ class World:
 
     def stat(self, p):
         n = self._node(p)
-        return types.SimpleNamespace(st_size=4096 if n.kind == "dir" else n.size, st_mtime=n.mtime,
+        return types.SimpleNamespace(st_size=4096 if n.kind == "dir" else n.size, st_mtime=n.mtime, st_mtime_ns=n.mtime * 1000000000,
+                                     st_atime=n.mtime, st_ctime=n.mtime, st_atime_ns=n.mtime * 1000000000, st_ctime_ns=n.mtime * 1000000000,
                                      st_mode=0o40755 if n.kind == "dir" else 0o100644, st_ino=n.ino)
 
     def mkdir(self, p, mode=0o777):
